@@ -283,6 +283,11 @@ type relayDouble struct {
 	arrivals []time.Time // arrival time of request n
 	answered []time.Time // time the answer to request n was written (zero: never)
 	maxOver  time.Duration
+
+	badPathSeen string
+	// drop: the relay accepts connections and closes them without an answer
+	// (an address that is reachable but has no builder API behind it)
+	drop bool
 }
 
 func newRelay(idx int, variants []*relayVariant, done chan struct{}) *relayDouble {
@@ -292,6 +297,15 @@ func newRelay(idx int, variants []*relayVariant, done chan struct{}) *relayDoubl
 }
 
 func (r *relayDouble) handle(w http.ResponseWriter, req *http.Request) {
+	if r.drop {
+		if hj, ok := w.(http.Hijacker); ok {
+			if conn, _, err := hj.Hijack(); err == nil {
+				_ = conn.Close()
+				return
+			}
+		}
+		panic(http.ErrAbortHandler)
+	}
 	if !strings.HasPrefix(req.URL.Path, "/eth/v1/builder/header/") {
 		w.WriteHeader(http.StatusOK)
 		return
@@ -310,6 +324,7 @@ func (r *relayDouble) handle(w http.ResponseWriter, req *http.Request) {
 	}
 	if vi < 0 {
 		r.badPath++
+		r.badPathSeen = req.URL.Path + " (expected " + r.variants[0].path + ")"
 		r.mu.Unlock()
 		w.WriteHeader(http.StatusNoContent)
 		return
